@@ -315,7 +315,7 @@ def run_case(case):
             sess.dispose()
     # mix
     rng = gen.rng_for("C02m", case["seed"])
-    sc = scen.gen_scenario(rng, big=rng.random() < 0.1, long_cmds=True)
+    sc = scen.gen_scenario(rng, big=rng.random() < 0.1, long_cmds=True, hist=True)
     kw = {}
     capname = None
     if rng.random() < 0.3:
